@@ -20,7 +20,8 @@ EXPLANATION = (
     " (R5) reused destination: read_site / read_record_buf overwrite every column of the vcf RecordBuf they decode into; (R6) append-buffer discipline of the BCF header's text reader."
     " (R7) sibling guard agreement: the per-type copies of the FORMAT value decoders (Int8/Int16/Int32/Float, vector and scalar) reach their `push(None)` sites under the same edge-dominance guard signature."
     " (R8) the async BCF writer clears its record buffer before the encoder fills it; (R9) the dictionary of strings only grows: a length-changing Vec operation on StringMap.entries is a resize on one edge only of a comparison with its own length (or with a max(len, ..) length); (R10) the VCF header writer, whose text the BCF reader numbers the dictionary from, and StringMaps::try_from(&Header), which the BCF writer numbers it with, visit INFO / FILTER / FORMAT in the same order."
-    " (R11) sibling shape: the end-of-vector padding loop (0..max_len - len) of every typed sample writer is enclosed by the per-sample loop only (genuine defect F43, repaired: the genotype writer padded inside the allele loop).")
+    " (R11) sibling shape: the end-of-vector padding loop (0..max_len - len) of every typed sample writer is enclosed by the per-sample loop only (genuine defect F43, repaired: the genotype writer padded inside the allele loop)."
+    " (R12) genotypes keep phasing: every allele code returned by the two allele encoders, the missing allele included, lies behind a test of the phasing argument (genuine defect F45, repaired).")
 ASSUMPTIONS = ["interval reasoning is dominance-based; per-sample padding and vector length logic are value-level"]
 NOT_DECIDED = ["full record equality, per-sample padding of unequal-length vectors, float bit patterns beyond the reserved-NaN constants"]
 
@@ -207,6 +208,9 @@ def run(ctx):
                         "(not nested in the value loop), in every typed sample writer")
     padding_loop_rule(ctx, "C10.R11", 4)
 
+    ctx.rule("C10.R12", "genotypes keep phasing: every allele code returned by the two allele encoders (missing allele included) has consulted the phasing")
+    allele_phasing_rule(ctx, "C10.R12")
+
     ctx.rule("C10.R4", "string-map lookups on decode are error exits on a missing index")
     n = 0
     for k, f in sorted(fb.fns.items()):
@@ -372,3 +376,36 @@ def padding_loop_rule(ctx, rule, floor):
                 else:
                     ctx.ok(rule, k + " :: padding loop", "%d enclosing loop(s)" % (len(enclosing) - 1), f.loc(bi))
     ctx.floor(rule, "padding loops (0..max_len - len) in the BCF sample value writers", n, floor)
+
+
+
+def allele_phasing_rule(ctx, rule):
+    """genotypes keep phasing: in both allele encoders every value returned has consulted the phasing argument — also the one for
+    a missing allele (allele -1 carries the phase bit like any other; defect F45: `.|.` came back as `./.`)."""
+    fb = ctx.fb
+    n = 0
+    for k, f in sorted(fb.fns.items()):
+        if not re.search(r"encoder::samples::values::encode_genotype(_str)?::encode$", k) or not f.blocks:
+            continue
+        n += 1
+        ctx.saw_fn(f)
+        ph = a10._derived_from(f, 2)
+        tests = set()
+        for bi, blk in enumerate(f.blocks):
+            t = blk["t"]
+            if blk.get("cu") or t[0] != "sw":
+                continue
+            l = C.op_local(t[1])
+            if l in ph:
+                tests.add(bi)
+        ex = C.success_exit_blocks(f)
+        free = [e for e in ex if e in C.reachable(f, 0, removed=tests)]
+        if not tests:
+            ctx.violation(rule, "%s/phasing-ignored/%s" % (rule, k), "%s never branches on its phasing argument" % k, f.loc())
+        elif free:
+            ctx.violation(rule, "%s/allele-without-phasing/%s" % (rule, k),
+                          "%s can return an encoded allele without having looked at the phasing (the missing-allele shortcut): `.|.` is written "
+                          "as `./.`" % k, f.loc(free[0]))
+        else:
+            ctx.ok(rule, k, "every returned allele code lies behind a test of the phasing argument", f.loc())
+    ctx.floor(rule, "allele encoders", n, 2)
